@@ -297,9 +297,193 @@ def r5_sibling_cursor_advance(ctx, rule):
     ctx.floor(rule, MCF, n, 2, 'candidate branches')
 
 
+_MUT = {'append', 'extend', 'insert', 'pop', 'remove', 'sort', 'reverse', 'clear', 'update', 'setdefault', 'popitem', 'add',
+        'discard'}
+OMEN_GEN_FILES = ('lib_guesser/omen/markov_cracker.py', 'lib_guesser/omen/guess_structure.py')
+OMEN_MODEL_ROOTS = {'self.grammar', 'self.cp'}
+
+
+def r6_model_immutable(ctx, rule):
+    """The loaded OMEN model is read-only for the generator.
+
+    cur_ip / cur_len (and their pickled copies in the .omn file) are *positions* in the model's lists, and the cached parse
+    trees refer to it by level and index: a generator that deletes, reorders or adds entries while it runs makes what a
+    level yields depend on which levels (and which process) ran before, and makes a saved position point elsewhere after
+    a reload (seed C15-f)."""
+    n_reads = 0
+    bad = False
+    for rel in OMEN_GEN_FILES:
+        m = ctx.repo.mod(rel)
+        for lname, fn in m.funcs.items():
+            q = rel + '::' + lname
+            ctx.stats['functions'].add(q)
+            tainted = set()
+            for nm, lst in stores_in(fn).items():
+                for s_, v in lst:
+                    if v is None:
+                        continue
+                    r = v
+                    while isinstance(r, ast.Subscript):
+                        r = r.value
+                    if isinstance(r, ast.Attribute) and U(r) in OMEN_MODEL_ROOTS and r is not v:
+                        tainted.add(nm)
+                    elif isinstance(v, ast.Attribute) and U(v) in OMEN_MODEL_ROOTS:
+                        tainted.add(nm)
+
+            def rooted(n):
+                while isinstance(n, ast.Subscript):
+                    n = n.value
+                if isinstance(n, ast.Attribute) and U(n) in OMEN_MODEL_ROOTS:
+                    return True
+                return isinstance(n, ast.Name) and n.id in tainted
+            for node in walk_local(fn):
+                hit = None
+                if isinstance(node, ast.Subscript) and rooted(node):
+                    if isinstance(node.ctx, ast.Load):
+                        n_reads += 1
+                    else:
+                        hit = node
+                elif isinstance(node, ast.Call) and isinstance(node.func, ast.Attribute) and node.func.attr in _MUT \
+                        and rooted(node.func.value) and not (isinstance(node.func.value, ast.Attribute)
+                                                             and U(node.func.value) == 'self.grammar' and False):
+                    hit = node
+                elif isinstance(node, ast.AugAssign) and rooted(node.target):
+                    hit = node
+                if hit is not None:
+                    # __init__ may bind the model (self.cp = cp) - that is a store to the attribute, not into the model
+                    bad = True
+                    par = m.parents.get(id(hit))
+                    ctx.bad(rule, q, 'OMEN model modified while generating: ' + U(par if isinstance(par, (ast.Delete, ast.Assign, ast.AugAssign)) else hit)[:70],
+                            'the generator must treat the loaded model as read-only: saved positions (cur_ip, cur_len, the .omn '
+                            'file) and cached parse trees are indexes into its lists, so an entry removed or added during one '
+                            'level shifts what every later level - and a restored session that reloads the model from disk - '
+                            'sees at the same index', None, hit)
+    if ctx.floor(rule, MCF, n_reads, 15, 'reads of the OMEN model in the generator') and not bad:
+        ctx.ok(rule, MCF, 'the generator only reads the model (%d subscript reads, no store/delete/mutator call)' % n_reads)
+
+
+def r7_prune_discipline(ctx, rule):
+    """_fill_out_parse_tree gives up (returns None) only where the model has no transition left to try.
+
+    Reference exits: `cp_index is None` (no transition of ip fits the remaining budget) and loop exhaustion. An added exit
+    that refuses a remaining budget by its size alone is wrong for length > 1, where the budget is shared by all remaining
+    transitions and legitimately exceeds the level of any single one (seed C18-f: `target_level > self.max_level` made the
+    strings of levels whose transition budget exceeds max_level disappear while calc_omen_keyspace still counts them)."""
+    q = GS + '_fill_out_parse_tree'
+    fn = ctx.fn(q)
+    mod = ctx.repo.modules[q.partition('::')[0]]
+    ps = params(fn)
+    tl = 'target_level' if 'target_level' in ps else None
+    if tl is None:
+        ctx.unk(rule, q, 'parameter target_level not found')
+        return
+    n = 0
+    bad = unk = False
+    for st in walk_stmts(fn.body):
+        if not (isinstance(st, ast.Return) and (st.value is None or const(st.value) is None)):
+            continue
+        n += 1
+        conds = path_conditions(mod, st)
+        for t, pol in conds:
+            txt = U(t)
+            if txt in ('cp_index is None', 'length == 1') and pol:
+                continue
+            if not pol:
+                continue    # fall-through of an earlier guard whose body left the function: judged at that guard
+            if txt in ('length <= self.optimizer.max_length',):
+                continue
+            if txt in ('found',):
+                continue
+            owner = mod.parents.get(id(t))
+            if isinstance(owner, ast.While):
+                continue
+            # a guard on the budget
+            cmps = [c for c in ast.walk(t) if isinstance(c, ast.Compare) and len(c.ops) == 1]
+            upper = [c for c in cmps if (U(c.left) == tl and isinstance(c.ops[0], (ast.Gt, ast.GtE)) and 'length' not in U(c.comparators[0]))
+                     or (U(c.comparators[0]) == tl and isinstance(c.ops[0], (ast.Lt, ast.LtE)) and 'length' not in U(c.left))]
+            under_len1 = any(U(t2) == 'length == 1' and p2 for t2, p2 in conds)
+            if upper and pol and not under_len1:
+                bad = True
+                ctx.bad(rule, q, 'gives up when %s' % txt,
+                        'for length > 1 target_level is the budget of ALL remaining transitions; it may exceed the level of any '
+                        'single transition (max_level) and still be reachable as a sum, so refusing it by size drops strings '
+                        'that belong to the level (the trainer\'s keyspace still counts them)', None, st)
+            elif txt in ('%s < 0' % tl, '0 > %s' % tl, '%s <= -1' % tl) and pol:
+                continue    # a negative budget is never satisfiable: sound prune
+            else:
+                unk = True
+                ctx.unk(rule, q, 'exit under unrecognised condition %s%s' % ('' if pol else 'not ', txt))
+    if ctx.floor(rule, q, n, 3, 'give-up exits of _fill_out_parse_tree') and not bad and not unk:
+        ctx.ok(rule, q, 'all %d give-up exits are "no transition fits" or loop exhaustion' % n)
+
+
+def r8_guess_from_tree(ctx, rule):
+    """What next_guess emits is a function of the current parse tree and of construction-time constants only.
+
+    The parse tree is replaced wholesale (next IP, optimizer hit, restore from the .omn file writes .parse_tree directly), so
+    any other mutable attribute that the emitted string is built from is a cache that those sites do not maintain: the
+    string then mixes the prefix of an earlier tree with the last transition of the current one (seed C10-e)."""
+    rel = GS.partition('::')[0]
+    m = ctx.repo.mod(rel)
+    meths = {ln.split('.', 1)[1]: f for ln, f in m.funcs.items() if ln.startswith('GuessStructure.') and '<locals>' not in ln}
+    written_outside_init = {}
+    for name, f in meths.items():
+        if name == '__init__':
+            continue
+        for n in walk_local(f):
+            if isinstance(n, ast.Attribute) and isinstance(n.ctx, (ast.Store, ast.Del)) and isinstance(n.value, ast.Name) and n.value.id == 'self':
+                written_outside_init.setdefault(n.attr, name)
+            if isinstance(n, (ast.AugAssign,)) and isinstance(n.target, ast.Attribute) and U(n.target.value) == 'self':
+                written_outside_init.setdefault(n.target.attr, name)
+    allowed_mutable = {'parse_tree'}
+
+    def attrs_of(expr, seen):
+        out = set()
+        for n in ast.walk(expr):
+            if isinstance(n, ast.Attribute) and isinstance(n.value, ast.Name) and n.value.id == 'self':
+                par = m.parents.get(id(n))
+                if isinstance(par, ast.Call) and par.func is n and n.attr in meths:
+                    if n.attr not in seen:
+                        seen.add(n.attr)
+                        for r in walk_local(meths[n.attr]):
+                            if isinstance(r, ast.Return) and r.value is not None:
+                                out |= attrs_of(expand(meths[n.attr], r.value, stores_in(meths[n.attr])), seen)
+                        # loop-carried accumulation: every expression assigned to a returned name
+                        for nm, lst in stores_in(meths[n.attr]).items():
+                            for s_, v in lst:
+                                if v is not None:
+                                    out |= attrs_of(v, seen)
+                        for a in walk_local(meths[n.attr]):
+                            if isinstance(a, ast.For):
+                                out |= attrs_of(a.iter, seen)
+                else:
+                    out.add(n.attr)
+        return out
+    fn = meths.get('next_guess')
+    if fn is None:
+        ctx.unk(rule, GS + 'next_guess', 'next_guess not found')
+        return
+    nret = 0
+    bad = False
+    for r in walk_local(fn):
+        if isinstance(r, ast.Return) and r.value is not None and const(r.value) is NOCONST:
+            nret += 1
+            used = attrs_of(expand(fn, r.value, stores_in(fn)), set())
+            stale = sorted(a for a in used if a in written_outside_init and a not in allowed_mutable)
+            if stale:
+                bad = True
+                ctx.bad(rule, GS + 'next_guess', 'emitted string depends on self.%s (rewritten in %s)' % (stale[0], written_outside_init[stale[0]]),
+                        'the guess must be rebuilt from the current parse tree (and construction-time constants) every time: the '
+                        'tree is replaced by the optimizer, by the walk to the next initial n-gram and by a restore, none of '
+                        'which maintains a cached piece of the string', {'attributes_used': sorted(used)}, r)
+    if ctx.floor(rule, GS + 'next_guess', nret, 3, 'string-returning exits of next_guess') and not bad:
+        ctx.ok(rule, GS + 'next_guess', 'all %d emitted strings are built from parse_tree and construction-time attributes only' % nret,
+               {'attributes_written_after_init': sorted(written_outside_init)})
+
+
 def rules(tier):
     return [('C10.R1', r1_copy_discipline), ('C10.R2', r2_memo_key), ('C10.R3', r3_sibling_constructions), ('C10.R4', r4_exact_last_transition),
-            ('C10.R5', r5_sibling_cursor_advance)]
+            ('C10.R5', r5_sibling_cursor_advance), ('C10.R6', r6_model_immutable), ('C10.R7', r7_prune_discipline), ('C10.R8', r8_guess_from_tree)]
 
 
 META = {
